@@ -17,6 +17,8 @@ package agreement
 //	bv <b> <r> <p> <step> <val> <mask>     Byzantine node b signs a vote with its real keys and sends it to <mask>
 //	bb <b> <r> <p> <step> <val> <mask>     … a bundle built from all votes seen on the wire for (r,p,step,val) + b's equivocations
 //	bp <b> <r> <p> <variant> <mask>        … a proposal (vote + payload) for its own block number <variant>
+//	bpv <b> <r> <p> <val> <mask>           … a stand-alone proposal-vote of period p for a value seen on the wire (a re-proposal when p > its original period)
+//	bpl <b> <r> <p> <val> <mask>           … the payload of a value seen on the wire, without a prior vote (as partitionPolicy re-broadcasts it)
 
 import (
 	"fmt"
@@ -360,6 +362,29 @@ func (r *ndRun) genByz(b int) string {
 	if r.rng.Intn(4) == 0 && per > 0 {
 		per--
 	}
+	if len(vals) > 0 && r.rng.Intn(5) == 0 {
+		// proposal traffic a relay may legitimately produce: a re-proposal vote for the next (or current) period, a payload
+		// without its proposal-vote, and — queued behind them — the Byzantine node's own fresh proposal of that period
+		// (a lower credential replaces the re-proposal in the period's proposal tracker)
+		v := ndTok(vals[r.rng.Intn(len(vals))])
+		m := r.randMask(true)
+		q := per + period(r.rng.Intn(2))
+		switch r.rng.Intn(3) {
+		case 0:
+			return fmt.Sprintf("bpl %d %d %d %s %s", b, rnd, per, v, m)
+		case 1:
+			r.genQueue = append(r.genQueue, fmt.Sprintf("bpl %d %d %d %s %s", b, rnd, per, v, m))
+			return fmt.Sprintf("bpv %d %d %d %s %s", b, rnd, q, v, m)
+		default:
+			if others := r.byzIDs(); len(others) > 1 {
+				o := others[r.rng.Intn(len(others))]
+				if o != b {
+					r.genQueue = append(r.genQueue, fmt.Sprintf("bp %d %d %d %d %s", o, rnd, q, 1+r.rng.Intn(3), m))
+				}
+			}
+			return fmt.Sprintf("bpv %d %d %d %s %s", b, rnd, q, v, m)
+		}
+	}
 	k := r.rng.Intn(10)
 	if per > 0 && k < 5 {
 		k = 0 // fresh proposals in later periods compete with the re-proposed starting value
@@ -610,6 +635,13 @@ func (r *ndRun) exec(line string) {
 			return
 		}
 		r.byzProposal(line, b, basics.Round(num(2)), period(num(3)), num(4), ndMask(f[5], r.cfg.n))
+	case "bpv", "bpl":
+		b := node(1, false)
+		if b == nil || len(f) < 6 {
+			r.diverged(line)
+			return
+		}
+		r.byzRelayProposal(line, b, basics.Round(num(2)), period(num(3)), f[4], ndMask(f[5], r.cfg.n), f[0] == "bpl")
 	default:
 		r.diverged(line)
 	}
